@@ -46,19 +46,19 @@ def check(ctx):
             # analyse once per defining class unless the subclass overrides something fit calls
             r = A.run(fi.fq, cls_ctx=cls)
             n_fit += 1 if is_subject else 0
-            _fit_rules(ctx, A, cls, m, fi, r, params, cfg, is_subject)
+            ctx.guard(_fit_rules, ctx, A, cls, m, fi, r, params, cfg, is_subject)
         for m in PREDICT_METHODS:
             fi = prog.lookup_method(cls, m)
             if fi is None or fi.cls not in prog.classes:
                 continue
             r = A.run(fi.fq, cls_ctx=cls)
             n_pred += 1 if is_subject else 0
-            _predict_rules(ctx, A, cls, m, fi, r, is_subject)
+            ctx.guard(_predict_rules, ctx, A, cls, m, fi, r, is_subject)
     ctx.floor("R19.2", "fit / partial_fit methods of the subject estimators", n_fit, 8)
     ctx.floor("R19.4", "predict-type methods of the subject estimators", n_pred, 11)
-    _latches(ctx)
-    _reload_completeness(ctx)
-    _pickle(ctx)
+    ctx.guard(_latches, ctx)
+    ctx.guard(_reload_completeness, ctx)
+    ctx.guard(_pickle, ctx)
 
 
 def _note_or_ob(ctx, is_subject, rule, fq, node, ok, text, construct):
